@@ -24,31 +24,31 @@ CHECKS = {
             "Per code unit positions, line map and exception entries of observed 3.11-3.13 code objects equal V's.", "7/C17"),
     "C08": ("exploration", "exhaustive runtime enumeration of the magic tables with CPython's registry comment and the installed interpreters as oracle",
             "All 65536 magic ints, all registry rows, all known magics, all release names and all installed interpreters are checked on every run (exhaustive for the finite parts).", "7/C08"),
-    "C09": ("exploration", "exhaustive runtime enumeration of every opcode table against the interpreters' opcode modules + structural invariants, on several hosts",
+    "C09": ("exploration", "exhaustive runtime enumeration of every opcode table against the interpreters' opcode modules + structural invariants (bijection, categories, documented jump names, EXTENDED_ARG shift) + enumeration of every lookup key / (version, flavour) pair / float and unlisted-micro form to the table it reaches, on several hosts",
             "All opcode modules x 256 opcodes x category sets; equality with `opcode` of the 9 installed interpreters; reference-free invariants for the rest; tables dumped on several hosts must be identical.", "7/C09"),
-    "C15": ("exploration", "differential runtime monitoring over the (opcode, operand) grid against dis.stack_effect of each interpreter",
+    "C15": ("exploration", "differential runtime monitoring over the (opcode, operand) grid and the operand-less call form against dis.stack_effect of each interpreter, pseudo-instructions included, after the PyPy tables of the same versions have been queried (hostile call order)",
             "Every opcode of 3.6-3.13 x a dense operand grid (0..300, powers of two +-1, samples; thorough 0..65536) equals dis.stack_effect wherever CPython accepts the pair; 2.x has no reference.", "7/C15"),
-    "C14": ("exploration", "differential runtime monitoring of xdis.marsh against the host's built-in marshal on seeded plain values, with structural shrinking of failing values",
+    "C14": ("exploration", "differential runtime monitoring of xdis.marsh against the host's built-in marshal on seeded plain values, with structural shrinking of failing values, nesting chains to 1500 levels and multi-value streams",
             "Held on the generated values only (every host 3.8-3.13, every value kind the statement names, both directions and the file-object API); NaNs are compared as 'is a NaN'.", "7/C14"),
     "C16": ("exploration", "runtime monitoring of native->portable->native round trips on each host with a snapshot/postcondition contract on the real replace()",
             "Every code object of the sampled stdlib files and generated programs on each host converts to the host's portable type and back with all attributes, co_lines() and co_positions() equal; replace() leaves the original unchanged.", "7/C16"),
     "C20": ("exploration", "differential runtime monitoring of xdis.std against the host's dis on live objects + cross-host comparison of make_std_api(V) with the native default API",
             "Same-named xdis.std functions return dis's data for the sampled functions/methods/generators/coroutines/code/source strings on each host; CACHE pseudo-instructions and 3.13's label-based is_jump_target on exception-range bounds are documented non-demands.", "7/C20"),
-    "C12": ("exploration", "runtime monitoring of disassemble_file over corpus + fresh files x 6 formats: exception boundary monitor, fd-level stdout/stderr capture, strict listing grammar checked against the Bytecode instruction stream, pydisasm process observer",
+    "C12": ("exploration", "runtime monitoring of disassemble_file over corpus + fresh files x 6 formats: exception boundary monitor, fd-level stdout/stderr capture, strict listing grammar checked against the Bytecode instruction stream, pydisasm process observer; on every host 3.8-3.13",
             "Held on the observed files only; the listing oracle is the self-consistency the statement defines (rows = non-CACHE instruction stream, '>>' <=> is_jump_target, line column <=> starts_line for bytecode >= 2.3).", "7/C12"),
     "C07": ("exploration", "multi-host consensus monitoring: canonical tree / instruction stream / masked listing digests of the same file on six hosts and across loader paths must be identical",
             "Held on the observed files (corpus + fresh files of every host version) on hosts 3.8-3.13; hosts older than 3.8 cannot import this branch in the sandbox.", "7/C07"),
     "C11": ("fault_enumeration", "fault enumeration (prefixes, byte mutations, inserts/deletes, foreign magics, adversarial marshal streams) through load_module under process observers: outcome class, sys.monitoring step budget, tracemalloc peak, audit hooks, scratch-dir listing, CPU-time scaling monitor",
-            "Every enumerated corruption of the seed files ends in a 7-tuple or ImportError within linear step/memory budgets with no exec/compile/import/write event; quick enumerates ~55k cases, thorough all prefixes and all byte positions of every seed <= 16 KB.", "7/C11"),
+            "Every enumerated corruption of the seed files ends in a 7-tuple or ImportError within linear step/memory budgets with no exec/compile/import/write event; quick enumerates ~60k cases, thorough about twenty times as many (first 2048 prefixes and byte positions of ~270 seed files); both call forms (full and header-only).", "7/C11"),
     "C06": ("exploration", "differential runtime monitoring of load_module's header fields against real headers written by each interpreter (CPython's own _classify_pyc as oracle for 3.7+) and synthetic headers for every release magic x flag word x random field values",
             "Every observed header decodes to exactly the fields its format stores, and the code object is the one right after the header; flag words CPython itself rejects are not judged.", "7/C06"),
-    "C10": ("exploration", "differential runtime monitoring of xdis's unmarshaller on hand-synthesised marshal streams (every encoding form, FLAG_REF/back-reference patterns) against the reference interpreter's own marshal.loads",
-            "Held on the accepted synthesised streams of each reference version (2.7, 3.6-3.13); the synthesiser is untrusted and streams a reference rejects are discarded; text-format NaN is not generated for Python 2.", "7/C10"),
+    "C10": ("exploration", "differential runtime monitoring of xdis's unmarshaller on hand-synthesised marshal streams (every encoding form, FLAG_REF/back-reference patterns) against the reference interpreter's own marshal.loads (format-equivalent interpreter for 2.5/2.6 and 3.0-3.5)",
+            "Held on the accepted synthesised streams of each reference version (2.7, 3.6-3.13, and 2.5/2.6/3.0-3.5 judged by the interpreter with the identical format); the synthesiser is untrusted and streams a reference rejects are discarded; text-format NaN is not generated for Python 2.", "7/C10"),
     "C19": ("translation_validation", "per-output validation of freeze(): each encoded line table is decoded by xdis's own line-start routine and by the matching CPython (which installs the bytes in a code object) and compared with the input mapping",
             "Every encoder output produced in the run is validated against its input by two independent decoders; no claim about the encoders beyond the mappings generated (all offset-gap / line-gap classes of the statement).", "7/C19"),
-    "C13": ("translation_validation", "per-output validation of write_bytecode_file: the target interpreter loads each written file (canonical equality with the original), xdis re-reads it, and the target executes original and rewritten file and the behaviours are compared",
+    "C13": ("translation_validation", "per-output validation of write_bytecode_file: the target interpreter loads each written file (canonical equality with the original), xdis re-reads it, and the target executes original, rewritten file and its own marshal round trip of the original (determinism-screened) and the behaviours are compared; corpus files of versions without interpreter must be read back by xdis as the same tree",
             "Each written file is validated individually by its own target interpreter (2.7, 3.6-3.13); a writer raise counts as refused; NaN constants compare as 'is a NaN'. No claim about files the generators did not produce.", "7/C13"),
-    "C18": ("exploration", "history monitoring against a fresh-process model (forked child per history) + invariant monitor: SHA-1 state digests of every module-level table before/after each public operation",
+    "C18": ("exploration", "history monitoring against a fresh-process model (forked child per history) + invariant monitor: SHA-1 state digests of every module-level table before/after each public operation; seeded random histories plus fixed pair histories (neighbouring versions, different Python 2 payloads, equal-but-different constants, failed loads)",
             "Probe results after seeded histories equal the same probe in a fresh process, repeats are stable and no tracked table changes, on the histories generated (explicit opcode remapping excluded).", "7/C18"),
 }
 
